@@ -94,6 +94,10 @@ def _q_as_angle(x):
         k = int(rk[0] * 2) % 4
         cs = [(1, 0), (0, 1), (-1, 0), (0, -1)][k]
         return Angle(cs[0], cs[1], rk[0], rk[0])
+    if rk is not None and rk[1] == 1 and (rk[0] * 6).denominator == 1 and F() is not None and 'r3' in F().idx:
+        from .phase import _const_cs
+        c, s = _const_cs(int(rk[0] * 6) % 12)
+        return Angle(c, s, rk[0], rk[0])
     raise UnsupportedInShim('cos/sin of a non-angle symbolic value %r' % (x,))
 
 
